@@ -134,6 +134,25 @@ def index_rename_alphabet():
             cf('a', ('null', 'true'))]
 
 
+def meta_sequences():
+    """Meta changes of one model on both sides of something the optimiser cannot fold across (an SQLMutation, a
+    rename of the model): an index that an earlier mutation of the batch creates is dropped or replaced by a
+    later one - what that costs must not depend on the index not being in the database yet"""
+    def metas(model):
+        cm = lambda prop, val: {'t': 'ChangeMeta', 'model': model, 'prop': prop, 'py_value': val}
+        return [cm('unique_together', [('a', 'b')]), cm('unique_together', []), cm('unique_together', [('b', 'a')]),
+                cm('index_together', [('a', 'b')]), cm('index_together', [])]
+    barrier = {'t': 'SQLMutation', 'tag': 'barrier', 'can_simulate': True, 'sql': []}
+    rename = {'t': 'RenameModel', 'old': 'Alpha', 'new': 'Gamma', 'db_table': 'vapp_alpha'}
+    out = []
+    for sep, after in ((barrier, 'Alpha'), (rename, 'Gamma')):
+        for m1 in metas('Alpha'):
+            for m2 in metas(after):
+                if m1['prop'] == m2['prop'] and m1['py_value'] != m2['py_value']:
+                    out.append([m1, dict(sep), m2])
+    return out
+
+
 def run(ctx):
     dj.setup()
     quick = ctx.tier == 'quick'
@@ -170,7 +189,8 @@ def run(ctx):
     ir3 = list(optrig.valid_sequences(sig, ira, 3))
     ctx.rng.shuffle(ir3)
     ir += ir3[:50 if quick else 2000]
-    work = [(spec2, q) for q in rel] + [(spec, q) for q in ir] + [(spec, q) for q in seqs]
+    work = [(spec, q) for q in meta_sequences()] + [(spec2, q) for q in rel] + [(spec, q) for q in ir] + \
+        [(spec, q) for q in seqs]
     merge_witness = None
     reqs = []
     pending = []
